@@ -559,13 +559,17 @@ func (c *runner) modAll(ps []Params) {
 // ---------------------------------------------------------------- fac
 
 func (c *runner) facAll(ps []Params, pairs [][2]int) {
-	ec := tss.S256()
+	c.facOn(tss.S256(), "", ps, pairs)
+	c.facOn(tss.Edwards(), "@ed25519", ps, pairs[:1]) // the curve is a parameter of the proof: the other curve too
+}
+
+func (c *runner) facOn(ec elliptic.Curve, cvTag string, ps []Params, pairs [][2]int) {
 	for _, pr := range pairs {
 		for _, sess := range Sessions() {
 			prover, verifier, sess := ps[pr[0]], ps[pr[1]], sess
-			label := fmt.Sprintf("c10/fac/%d/%d/%s", prover.Idx, verifier.Idx, sess.Name)
-			k := &kase{sys: "fac", class: "sess=" + sess.Name,
-				canon: fmt.Sprintf("fac|prover=%d|verifier=%d|sess=%s", prover.Idx, verifier.Idx, sess.Name),
+			label := fmt.Sprintf("c10/fac/%d/%d/%s%s", prover.Idx, verifier.Idx, sess.Name, cvTag)
+			k := &kase{sys: "fac", class: "sess=" + sess.Name + cvTag,
+				canon: fmt.Sprintf("fac|prover=%d|verifier=%d|sess=%s%s", prover.Idx, verifier.Idx, sess.Name, cvTag),
 				rec:   map[string]interface{}{"prover_set": prover.Idx, "verifier_set": verifier.Idx, "session_len": len(sess.B), "drbg": label}}
 			k.run = func(k *kase) (string, string) {
 				pf, err := BuildFac(prover, verifier, ec, sess.B, label)
@@ -604,14 +608,18 @@ func (c *runner) facAll(ps []Params, pairs [][2]int) {
 // ---------------------------------------------------------------- range (Alice)
 
 func (c *runner) rangeAll(ps []Params, pairs [][2]int) {
-	ec := tss.S256()
+	c.rangeOn(tss.S256(), "", ps, pairs)
+	c.rangeOn(tss.Edwards(), "@ed25519", ps, pairs[:1])
+}
+
+func (c *runner) rangeOn(ec elliptic.Curve, cvTag string, ps []Params, pairs [][2]int) {
 	q := ec.Params().N
 	for _, pr := range pairs {
 		for _, m := range ScalarAlphabet(q, true) {
 			prover, verifier, m := ps[pr[0]], ps[pr[1]], m
-			label := fmt.Sprintf("c10/range/%d/%d/%s", prover.Idx, verifier.Idx, m.Name)
-			k := &kase{sys: "range", class: "m=" + m.Name,
-				canon: fmt.Sprintf("range|prover=%d|verifier=%d|m=%s", prover.Idx, verifier.Idx, m.Name),
+			label := fmt.Sprintf("c10/range/%d/%d/%s%s", prover.Idx, verifier.Idx, m.Name, cvTag)
+			k := &kase{sys: "range", class: "m=" + m.Name + cvTag,
+				canon: fmt.Sprintf("range|prover=%d|verifier=%d|m=%s%s", prover.Idx, verifier.Idx, m.Name, cvTag),
 				rec:   map[string]interface{}{"prover_set": prover.Idx, "verifier_set": verifier.Idx, "m": hx(m.V), "drbg": label}}
 			k.run = func(k *kase) (string, string) {
 				rc, err := BuildRange(prover, verifier, ec, m.V, label)
@@ -646,7 +654,11 @@ func (c *runner) rangeAll(ps []Params, pairs [][2]int) {
 // ---------------------------------------------------------------- Bob / Bob-WC
 
 func (c *runner) bobAll(ps []Params, pairs [][2]int, fullProduct map[[2]int]bool) {
-	ec := tss.S256()
+	c.bobOn(tss.S256(), "", ps, pairs, fullProduct)
+	c.bobOn(tss.Edwards(), "@ed25519", ps, pairs[:1], map[[2]int]bool{})
+}
+
+func (c *runner) bobOn(ec elliptic.Curve, cvTag string, ps []Params, pairs [][2]int, fullProduct map[[2]int]bool) {
 	q := ec.Params().N
 	q5 := Q5(ec)
 	ys := []NamedInt{
@@ -686,9 +698,9 @@ func (c *runner) bobAll(ps []Params, pairs [][2]int, fullProduct map[[2]int]bool
 			}
 			for _, cb := range combos {
 				keyOwner, ring, cb, wc, sys := ps[pr[0]], ps[pr[1]], cb, wc, sys
-				label := fmt.Sprintf("c10/%s/%d/%d/%s/%s/%s", sys, keyOwner.Idx, ring.Idx, cb.x.Name, cb.y.Name, cb.s.Name)
-				k := &kase{sys: sys, class: "x=" + cb.x.Name + "/y=" + cb.y.Name + "/sess=" + cb.s.Name,
-					canon: fmt.Sprintf("%s|key=%d|ring=%d|x=%s|y=%s|sess=%s", sys, keyOwner.Idx, ring.Idx, cb.x.Name, cb.y.Name, cb.s.Name),
+				label := fmt.Sprintf("c10/%s/%d/%d/%s/%s/%s%s", sys, keyOwner.Idx, ring.Idx, cb.x.Name, cb.y.Name, cb.s.Name, cvTag)
+				k := &kase{sys: sys, class: "x=" + cb.x.Name + "/y=" + cb.y.Name + "/sess=" + cb.s.Name + cvTag,
+					canon: fmt.Sprintf("%s|key=%d|ring=%d|x=%s|y=%s|sess=%s%s", sys, keyOwner.Idx, ring.Idx, cb.x.Name, cb.y.Name, cb.s.Name, cvTag),
 					rec: map[string]interface{}{"paillier_set": keyOwner.Idx, "ring_set": ring.Idx, "x": hx(cb.x.V), "y": hx(cb.y.V),
 						"session_len": len(cb.s.B), "drbg": label}}
 				k.run = func(k *kase) (string, string) {
@@ -791,5 +803,5 @@ func Run(r *core.Run) {
 		"with a different input, so all are non-trivial")
 	r.Assume("the prover's internal masks come from a fixed SHA-256 counter stream per case (core.NewDRBG); only witnesses, parameter sets, curves and sessions are enumerated")
 	r.Assume("Schnorr x=0 is enumerated on the Edwards curve only (0*G is not representable as an ECPoint on secp256k1); Bob-WC skips x=0 for the same reason; dln skips x in {0,1} (h2=1, h2=h1 are refused by design)")
-	r.Assume("fac, range and Bob proofs are enumerated on secp256k1 only (the only curve the MtA / Paillier protocols are used with)")
+	r.Assume("fac, range and Bob proofs: full enumeration on secp256k1 (the curve the MtA / Paillier protocols are used with), the first parameter pair on edwards25519 as well (the curve is a parameter of these proofs)")
 }
